@@ -129,6 +129,45 @@ def r2_r5_receive(ctx, fam):
                       'without re-testing the buffer after clearing the '
                       'event: an event that arrived in between is held '
                       'back', where=where(f, wt.node), rid='C19.R2')
+        # every wake-up is consumed: a successful wait on the input event is
+        # followed by its clear before the next wait / before returning,
+        # otherwise the next receive() no longer blocks (nor times out)
+        for i, wt in enumerate(waits):
+            failed_here = any(
+                e.kind == 'caught' and e.extra is not None and
+                e.extra.origin is not None and e.extra.origin.idx >= wt.idx
+                and (i + 1 >= len(waits) or
+                     e.extra.origin.idx < waits[i + 1].idx)
+                for e in p.events) or any(
+                not c.pol and c.at >= wt.idx and 'wait(' in U(run.expand(
+                    c.atom)) and (i + 1 >= len(waits) or
+                                  c.at < waits[i + 1].idx)
+                for c in p.conds)
+            if failed_here or p.exit in ('raise', 'exc', 'cut'):
+                continue
+            hi = waits[i + 1].idx if i + 1 < len(waits) else len(p.events)
+            cl = [c for c in clears if wt.idx < c.idx <= hi]
+            ctx.check(bool(cl), construct, 'a successful wait on the input '
+                      'event is consumed (cleared) before the next wait or '
+                      'the return', key='wake-consumed',
+                      reason='the input event stays set after receive() was '
+                      'woken: the next receive() with an empty buffer does '
+                      'not block and never times out', where=where(f, wt.node),
+                      rid='C19.R2')
+        # the connection is given the chance to come back: the connected
+        # flag is tested only after a wait on the connected event
+        for c in p.conds:
+            if U(run.expand(c.atom)) == 'self.connected':
+                cw = [e for e in p.events[:c.at] if e.kind == 'call' and
+                      e.callee() == 'wait' and e.recv() == CEV]
+                ctx.check(bool(cw), construct, 'the connected flag is read '
+                          'after waiting on the connected event',
+                          key='flag-after-wait', reason='receive() reads '
+                          '`connected` without having waited for the '
+                          'connected event: during a reconnection it fails '
+                          'with DisconnectedError instead of waiting it out',
+                          where=w, rid='C19.R5')
+                break
         # clear comes after the wait it acknowledges
         for c in clears:
             prior = [x for x in waits if x.idx < c.idx]
